@@ -314,6 +314,89 @@ VP_TARGET("qsort", t_qsort,
           "seeded from the case; oracle = ordered by the comparator AND a permutation of the input; non-trivial = "
           "length >= 4 with a duplicate key");
 
+// Long arrays / large elements: lengths around 256, 512..1100 and (1- and 2-byte elements) 65536, element
+// sizes up to 260. Keys come from a drawn 32-bit value mixed with the index, so the choice sequence stays short.
+static uint32_t mix32(uint32_t x)
+{
+    x ^= x >> 16;
+    x *= 0x7feb352dU;
+    x ^= x >> 15;
+    x *= 0x846ca68bU;
+    x ^= x >> 16;
+    return x;
+}
+static void t_qsort_large(Src &s, Case &c)
+{
+    size_t n, size;
+    switch (s.weighted({3, 3, 1, 2}))
+    {
+    case 0:
+        n = (size_t)s.range(250, 262);
+        size = (size_t)(s.coin() ? s.range(1, 8) : s.range(9, 40));
+        break;
+    case 1:
+        n = (size_t)s.range(81, 1100);
+        size = (size_t)s.range(1, 8);
+        break;
+    case 2:
+        n = (size_t)s.range(65530, 65545);
+        size = (size_t)s.range(1, 2);
+        break;
+    default:
+        n = (size_t)s.range(4, 40);
+        size = (size_t)s.range(250, 262);
+    }
+    bool two = size >= 3 && s.below(4) == 0;
+    int keyrange = (int)s.pick({2, 5, 16, 256});
+    unsigned seed = s.u16();
+    uint32_t k0 = s.u32();
+    int shape = (int)s.below(4); // 0 pseudo-random, 1 ascending, 2 descending, 3 all equal
+    Exact arr(n * size);
+    for (size_t i = 0; i < n; i++)
+    {
+        uint8_t *e = arr.p + i * size;
+        uint32_t h = mix32(k0 + (uint32_t)i);
+        uint32_t kv = shape == 0 ? h % (uint32_t)keyrange : shape == 1 ? (uint32_t)(i * (size_t)keyrange / n) : shape == 2 ? (uint32_t)((n - 1 - i) * (size_t)keyrange / n) : k0 % (uint32_t)keyrange;
+        e[0] = (uint8_t)kv;
+        for (size_t j = 1; j < size; j++)
+            e[j] = (uint8_t)(i * 7 + j * 13 + 1);
+        if (two)
+            e[1] = (uint8_t)((h >> 8) % 3);
+        if (size >= 4)
+        {
+            e[size - 1] = (uint8_t)i; // 16-bit tag
+            e[size - 2] = (uint8_t)(i >> 8);
+        }
+    }
+    std::vector<std::string> before;
+    for (size_t i = 0; i < n; i++)
+        before.emplace_back((const char *)arr.p + i * size, size);
+    c.log("qsort n=%zu size=%zu cmp=%s keyrange=%d srand=%u shape=%d k0=%08x", n, size, two ? "two_bytes" : "first_byte", keyrange, seed, shape, k0);
+    c.nontrivial = true;
+    c.label(n >= 65530 ? "n>=65530" : n >= 256 ? "n>=256" : size >= 250 ? "size>=250" : "n<256");
+    static const char *shapes[] = {"shape_random", "shape_ascending", "shape_descending", "shape_all_equal"};
+    c.label(shapes[shape]);
+    g_size = size;
+    g_n = n;
+    g_base = arr.c();
+    g_bad_ptr = false;
+    igc_srand(seed);
+    igc_qsort(arr.p, n, size, two ? cmp_two_bytes : cmp_first_byte);
+    VP_CHECK(!g_bad_ptr, "qsort_cmp_ptr", "comparator called with a pointer inside the array that is not on an element boundary");
+    for (size_t i = 0; i + 1 < n; i++)
+        VP_CHECK((two ? cmp_two_bytes : cmp_first_byte)(arr.p + i * size, arr.p + (i + 1) * size) <= 0, "qsort_order",
+                 "elements %zu and %zu out of order", i, i + 1);
+    std::vector<std::string> after;
+    for (size_t i = 0; i < n; i++)
+        after.emplace_back((const char *)arr.p + i * size, size);
+    std::sort(before.begin(), before.end());
+    std::sort(after.begin(), after.end());
+    VP_CHECK(before == after, "qsort_permutation", "output is not a permutation of the input (element dropped, duplicated or altered)");
+}
+VP_TARGET("qsort_large", t_qsort_large,
+          "arrays of 250..262 / 81..1100 / 65530..65545 elements (element size 1..40) or 4..40 elements of 250..262 bytes; keys "
+          "pseudo-random from a drawn value, ascending, descending or all equal; same oracle as qsort; every case non-trivial");
+
 // ------------------------------------------------------------------ bsearch
 static int cmp_key_elem(const void *k, const void *e)
 {
@@ -398,6 +481,76 @@ static void t_bsearch(Src &s, Case &c)
         VP_CHECK(*(const uint8_t *)r == key, "bsearch_result_equal", "result element %d != key %d", *(const uint8_t *)r, key);
     }
 }
+static void t_bsearch_large(Src &s, Case &c)
+{
+    size_t n, size;
+    switch (s.weighted({3, 3, 1}))
+    {
+    case 0:
+        n = (size_t)s.range(250, 262);
+        size = (size_t)(s.coin() ? s.range(1, 8) : s.range(250, 262));
+        break;
+    case 1:
+        n = (size_t)s.range(81, 1100);
+        size = (size_t)s.range(1, 8);
+        break;
+    default:
+        n = (size_t)s.range(65530, 65545);
+        size = (size_t)s.range(1, 2);
+    }
+    // sorted keys lo..hi spread over the array (duplicates as soon as n > hi-lo+1)
+    int lo = (int)s.below(3), hi = 255 - (int)s.below(3);
+    int stride = (int)s.pick({1, 2, 3}); // only every stride-th value occurs
+    std::vector<uint8_t> keys(n);
+    for (size_t i = 0; i < n; i++)
+    {
+        int v = lo + (int)(i * (size_t)(hi - lo + 1) / n);
+        keys[i] = (uint8_t)(v - (v - lo) % stride);
+    }
+    Exact arr(n * size);
+    for (size_t i = 0; i < n; i++)
+    {
+        memset(arr.p + i * size, 0xEE, size);
+        arr.p[i * size] = keys[i];
+    }
+    uint8_t key;
+    int kk = (int)s.weighted({4, 1, 1, 2});
+    if (kk == 0)
+        key = keys[s.below(n)];
+    else if (kk == 1)
+        key = 0;
+    else if (kk == 2)
+        key = 255;
+    else
+        key = s.u8();
+    Exact keyblk(&key, 1);
+    bool present = std::find(keys.begin(), keys.end(), key) != keys.end();
+    c.log("bsearch n=%zu size=%zu key=%d present=%d lo=%d hi=%d stride=%d", n, size, key, (int)present, lo, hi, stride);
+    c.nontrivial = true;
+    c.label(n >= 65530 ? "n>=65530" : n >= 256 ? "n>=256" : "n<256");
+    c.label(present ? "present" : "absent");
+    g_size = size;
+    g_n = n;
+    g_base = arr.c();
+    g_bad_ptr = false;
+    g_key = keyblk.p;
+    g_key_not_first = false;
+    void *r = igc_bsearch(keyblk.p, arr.p, n, size, cmp_key_elem);
+    VP_CHECK(!g_key_not_first, "bsearch_arg_order", "comparator not called as compar(key, element)");
+    VP_CHECK(!g_bad_ptr, "bsearch_deref_outside", "comparator was handed an element pointer outside the array (n=%zu)", n);
+    VP_CHECK((r != nullptr) == present, "bsearch_found_iff_present", "returned %s but key is %s", r ? "an element" : "NULL",
+             present ? "present" : "absent");
+    if (r)
+    {
+        const char *pr = (const char *)r;
+        VP_CHECK(pr >= arr.c() && pr < arr.c() + n * size && (size_t)(pr - arr.c()) % size == 0, "bsearch_result_ptr",
+                 "result not on an element of the array");
+        VP_CHECK(*(const uint8_t *)r == key, "bsearch_result_equal", "result element %d != key %d", *(const uint8_t *)r, key);
+    }
+}
+VP_TARGET("bsearch_large", t_bsearch_large,
+          "sorted arrays of 250..262 / 81..1100 / 65530..65545 elements, element size 1..8 or 250..262: same oracle as bsearch; "
+          "every case non-trivial");
 VP_TARGET("bsearch", t_bsearch,
           "sorted arrays of length 0..80 (zero-size heap block when empty), element size 1..32, duplicates, keys "
           "present/absent/below/above, heterogeneous comparator (1-byte key object vs element); oracle = found iff "
